@@ -81,12 +81,8 @@ func runC18TLS(c *Ctx) {
 				viol := func(kind, detail string) {
 					c.R.Violate(rig.Violation{Sig: "c18|tls-" + kind, Detail: fmt.Sprintf("server %q pass=%q: %s", server, pass, detail), Case: Case("tls", idx)})
 				}
-				connErr := make(chan error, 1)
-				go func() { connErr <- s.Conn.Connect() }()
 				var cerr error
-				select {
-				case cerr = <-connErr:
-				case <-time.After(WaitLong):
+				if !watched(func() { cerr = s.Conn.Connect() }) {
 					c.R.Inconcl("Connect with SSL did not return")
 					return
 				}
